@@ -3,6 +3,7 @@ package main
 import (
 	"os"
 	"path/filepath"
+	"sort"
 	"strings"
 
 	"github.com/roddhjav/apparmor.d/pkg/paths"
@@ -66,5 +67,64 @@ func init() {
 func must(err error) {
 	if err != nil {
 		panic(err)
+	}
+}
+
+func init() {
+	// setflags2 <main.flags text> <dist.flags text> <profile names;...> <source headers;...>  ->  ok <header line per profile;...>
+	// The real SetFlags task over a build directory of several profiles with BOTH manifests (common and per-distribution),
+	// as in a real build: a profile may be listed in one, in both (the distribution's entry overrides) or in neither.
+	suites["setflags2"] = func(f []string) string {
+		root := scratchRoot()
+		defer os.RemoveAll(root)
+		defer func() { tmpRoot = "" }()
+		build := filepath.Join(root, "build")
+		flagDir := filepath.Join(root, "flags")
+		must(os.MkdirAll(filepath.Join(build, "apparmor.d"), 0o755))
+		must(os.MkdirAll(flagDir, 0o755))
+		must(os.WriteFile(filepath.Join(flagDir, "main.flags"), []byte(unesc(f[0])), 0o644))
+		must(os.WriteFile(filepath.Join(flagDir, "vdist.flags"), []byte(unesc(f[1])), 0o644))
+		names := unescList(f[2])
+		heads := unescList(f[3])
+		for i, n := range names {
+			must(os.WriteFile(filepath.Join(build, "apparmor.d", n), []byte(heads[i]+"\n  capability kill,\n}\n"), 0o644))
+		}
+		oldRoot, oldAa, oldFlag, oldDist := prebuild.Root, prebuild.RootApparmord, prebuild.FlagDir, prebuild.Distribution
+		defer func() {
+			prebuild.Root, prebuild.RootApparmord, prebuild.FlagDir, prebuild.Distribution = oldRoot, oldAa, oldFlag, oldDist
+		}()
+		prebuild.Root = paths.New(build)
+		prebuild.RootApparmord = prebuild.Root.Join("apparmor.d")
+		prebuild.FlagDir = paths.New(flagDir)
+		prebuild.Distribution = "vdist"
+		if _, err := prepare.Tasks["setflags"].Apply(); err != nil {
+			return "err\tapply"
+		}
+		res := []string{}
+		for _, n := range names {
+			out, err := os.ReadFile(filepath.Join(build, "apparmor.d", n))
+			if err != nil {
+				return "err\tread"
+			}
+			res = append(res, strings.SplitN(string(out), "\n", 2)[0])
+		}
+		return "ok\t" + escList(res)
+	}
+}
+
+func init() {
+	// flagsread <flags dir> <manifest name>  ->  ok <profile=flag,flag;...> (sorted by profile)
+	// What the code itself reads from a flags manifest (prebuild.Flags.Read), for comparison with an independent reading.
+	suites["flagsread"] = func(f []string) string {
+		old := prebuild.FlagDir
+		defer func() { prebuild.FlagDir = old }()
+		prebuild.FlagDir = paths.New(unesc(f[0]))
+		m := prebuild.Flags.Read(unesc(f[1]))
+		res := []string{}
+		for k, v := range m {
+			res = append(res, k+"="+strings.Join(v, ","))
+		}
+		sort.Strings(res)
+		return "ok\t" + escList(res)
 	}
 }
